@@ -116,3 +116,25 @@ Example C13_enum_range_witness :
   (exists f s, read_file (txt 50 53 53)%N false = POk f s) /\ read_file (txt 50 53 54)%N false = PErr.
 Proof. cbv zeta. split; [eexists; eexists; vm_compute; reflexivity|vm_compute; reflexivity]. Qed.
 Print Assumptions C13_enum_range.
+
+(* All of it in one statement, for EVERY input text: if the parser model returns a File and the validator model accepts it,
+   then none of the listed semantic errors is present - no duplicate const / definition / union-branch / field / enum-option
+   name, no duplicate enum value, no duplicate non-zero opcode, nothing named like a primitive, every struct and message field
+   type defined at every depth (sem_ok); message indices distinct and non-zero, union indices distinct; every enum value
+   inside its base type; no struct reaches itself through struct-typed usage.  What this does NOT cover is the two known
+   findings: types inside union branches, and const literals out of range. *)
+Definition C13_accepted_statement : Prop :=
+  forall input f s, read_file input false = POk f s -> validate f = true ->
+    sem_ok f /\
+    (forall m, In m (messages f) -> NoDup (map fst (m_fields m)) /\ ~ In 0%N (map fst (m_fields m))) /\
+    (forall u, In u (unions f) -> NoDup (map fst (un_fields u))) /\
+    (forall e o, In e (enums f) -> In o (e_opts e) ->
+       if e_unsigned e then (o_uvalue o < 2 ^ ebits e)%N else (- 2 ^ (Z.of_N (ebits e) - 1) <= o_value o < 2 ^ (Z.of_N (ebits e) - 1))%Z) /\
+    (forall a, In a (snames (structs f)) -> ~ clo bytes (snames (structs f)) (direct (structs f)) a a).
+Theorem C13_accepted : C13_accepted_statement.
+Proof.
+  intros input f s E V. split; [exact (validate_sound f V)|].
+  destruct (C13_indices input false f s E) as [Hm Hu]. split; [exact Hm|]. split; [intros u Hin; exact (proj1 (Hu u Hin))|].
+  split; [exact (C13_enum_range input false f s E)|]. exact (proj2 (proj1 (validate_rec f) V)).
+Qed.
+Print Assumptions C13_accepted.
